@@ -46,7 +46,9 @@ RULE = ("announcement / goodbye / silence histories of 1-3 instances and respond
         "the two names (known finding) with or without the records coming back, PTR delivered "
         "with and without cache-flush bit; non-trivial = at least one event")
 TRUSTED = bc.TRUSTED_COMMON  # model follows /repo fixes up to 48ec5c0 (follow-ups only while a PTR points to the instance)
-PARTIAL = ("Of viol_C05's failure kinds F05_alive, F05_again and F05_dead are excluded by history-level theorems outside the "
+PARTIAL = ("Case mapping of NON-ASCII letters (the daemon lower-cases host names with Unicode rules, the Coq model folds "
+           "ASCII only) is covered by the model-free family `na-` only: SRV target and address owner differing in the case of "
+           "a non-ASCII letter; the expectation is computed in the Python projection, no theorem speaks about it. Of viol_C05's failure kinds F05_alive, F05_again and F05_dead are excluded by history-level theorems outside the "
            "executable classes named in LEVEL_TEXT; F05_wake is not (the browser model does not compute timers: requested "
            "wake-ups are an input of the checker; the cache-layer timer theorem is C12's). Inside the classes: F05_again is "
            "refuted inside known_srv_targets and open inside known_ptr_variant; F05_dead is refuted inside known_removal_hidden "
@@ -79,6 +81,7 @@ def known_class(line, impl_result, mon_result):
 def generate(rng, tier):
     k = 1 if tier == "quick" else 12
     return bc.mk_cases(rng, [
+        ("na-", 40 * k, lambda r, i: bc.gen_nonascii_host(r, i, True)),
         ("life", 2000 * k, bc.gen_lifecycle),
         ("follow", 200 * k, bc.gen_followup),
         ("long", 8 * k, bc.gen_long),
